@@ -108,6 +108,13 @@ class SSeq(Sym):
         self.psum = psum  # k -> sum of the first k elements (int sequences; or of measure(element))
         self.name = name
         self.measure = None  # element -> int, when psum sums a measure of the elements
+        # component prefix sums (sequences of tuples): {c: k -> sum of elt[c] over the first k elements}; maintained
+        # structurally by fresh_seq / to_sseq / seq_concat / seq_slice1 / seq_update exactly as `psum` is
+        self.cpsum = {}
+        # run-length view (sequences of (value, count) pairs): position p -> value of the run covering p; a model
+        # field like `psum`: an uninterpreted function for a fresh sequence (linked to the runs by the axiom
+        # `run_link`), derived structurally for concatenations / updates / slices / literals. None: not modelled.
+        self.expand = None
 
     def get(self, i):
         return self.getter(i)
@@ -267,7 +274,120 @@ def fresh_seq(st, n, elem_shape, hint, measure=None):
                 s.assume(ps(zk) >= 0)
             return mk_int(ps(zk))
 
-    return SSeq(n, getter, elem_shape, psum, name=base)
+    r = SSeq(n, getter, elem_shape, psum, name=base)
+    if isinstance(elem_shape, S.Tup):
+        # component prefix sums for the plain-int components of a tuple element (e.g. the run lengths of a
+        # run-length list [(attr, run), ...]): one uninterpreted function per component, defining equation
+        # cps(i+1) = cps(i) + elt(i)[c] instantiated at every index that is read (as for `psum` above)
+        comps = [c for c, sh in enumerate(elem_shape.items) if isinstance(sh, S._Int)]
+        if comps:
+            fns = {c: z3.Function(f"{base}.{c}$psum", z3.IntSort(), z3.IntSort()) for c in comps}
+            tup_get = getter
+
+            def getter(i, fns=fns, tup_get=tup_get):  # noqa: F811
+                v = tup_get(i)
+                zi = zint(i)
+                for c, f in fns.items():
+                    cur().assume(f(zi + 1) == f(zi) + zint(v[c]))
+                return v
+
+            r.getter = getter
+            for c, f in fns.items():
+
+                def cps(k, f=f):
+                    cur().assume(f(z3.IntVal(0)) == 0)
+                    return mk_int(f(zint(k)))
+
+                r.cpsum[c] = cps
+        if len(elem_shape.items) == 2 and 1 in r.cpsum:
+            r.expand = mk(elem_shape.items[0], "$at")
+    return r
+
+
+def run_link(s, j):
+    """Defining axiom of the run-length view of a fresh sequence s of (value, count >= 0) pairs, for run j:
+    every position p with cps(j) <= p < cps(j+1) expands to the value of run j (a quantified fact over p).
+    Non-negative counts make the covering run unique, so the instances never contradict one another."""
+    from . import shapes as S
+
+    if isinstance(s, LRef):
+        s = s.seq
+    if not isinstance(s, SSeq) or s.expand is None or 1 not in s.cpsum:
+        raise Unsupported("run_link: not a run-length sequence")
+    sh = s.shape
+    if not (isinstance(sh, S.Tup) and isinstance(sh.items[1], S._Int) and sh.items[1].lo is not None and sh.items[1].lo >= 0):
+        raise Unsupported("run_link: run counts not known to be non-negative")
+    from .values import forall, opt_eq
+
+    v = s.get(j)[0]
+    lo, hi = s.cpsum[1](j), s.cpsum[1](j + 1)
+
+    def same(x, y):
+        if isinstance(x, tuple):
+            return both(*[same(a, b) for a, b in zip(x, y)])
+        return opt_eq(x, y)
+
+    from .values import implies
+
+    cur().assume(implies(both(V._cmp(">=", j, 0), V._cmp("<", j, s.length)), forall(lo, hi, lambda p: same(s.expand(p), v), check_empty=False)))
+
+
+def _tuple_expand(items):
+    if not items or not all(isinstance(x, tuple) and len(x) == 2 and V.is_num(x[1]) for x in items):
+        return None
+
+    def ex(p, items=items):
+        acc = 0
+        bounds = []
+        for x in items:
+            acc = acc + x[1]
+            bounds.append(acc)
+        r = items[-1][0]
+        for j in range(len(items) - 2, -1, -1):
+            r = ite(V._cmp("<", p, bounds[j]), items[j][0], r)
+        return r
+
+    return ex
+
+
+def _tuple_cpsum(items):
+    """Component prefix sums of a concrete tuple of equal-arity tuples (int-like components only)."""
+    out = {}
+    if not items or not all(isinstance(x, tuple) for x in items):
+        return out
+    ar = len(items[0])
+    if any(len(x) != ar for x in items):
+        return out
+    for c in range(ar):
+        if all(V.is_num(x[c]) and not isinstance(x[c], (bool, SBool)) for x in items):
+
+            def cps(k, c=c, items=items):
+                acc = [0]
+                for x in items:
+                    acc.append(acc[-1] + x[c])
+                if isinstance(k, int):
+                    return acc[max(0, min(k, len(items)))]
+                r = acc[-1]
+                for j in range(len(items) - 1, -1, -1):
+                    r = ite(V._cmp("<=", k, j), acc[j], r)
+                return r
+
+            out[c] = cps
+    return out
+
+
+def seq_cpsum(s, c):
+    """k -> sum of elt[c] over the first k elements of s (a sequence of tuples), or None when not modelled."""
+    if isinstance(s, LRef):
+        s = s.seq
+    if isinstance(s, (tuple, list)):
+        items = tuple(s)
+        if not items:
+            return lambda k: 0
+        return _tuple_cpsum(items).get(c)
+    if isinstance(s, SSeq):
+        return s.cpsum.get(c)
+    return None
 
 
 def seq_len(s):
@@ -346,6 +466,10 @@ def to_sseq(s, shape=None, measure=None):
             shape = None
     r = SSeq(len(items), getter, shape, psum, "lit")
     r.measure = measure
+    r.cpsum = _tuple_cpsum(items)
+    r.expand = _tuple_expand(items)
+    if not items:
+        r.empty_lit = True
     return r
 
 
@@ -425,6 +549,15 @@ def seq_concat(a, b):
     r = SSeq(na + b.length, getter, a.shape or b.shape, psum, "cat")
     r.lazy = lazy
     r.measure = measure
+    for c in set(a.cpsum) & set(b.cpsum):
+
+        def cps(k, fa=a.cpsum[c], fb=b.cpsum[c]):
+            return ite(k <= na, fa(imin(k, na)), fa(na) + fb(imax(k - na, 0)))
+
+        r.cpsum[c] = cps
+    if a.expand is not None and b.expand is not None and 1 in r.cpsum:
+        la = a.cpsum[1](na)
+        r.expand = lambda p: ite(p < la, a.expand(p), b.expand(p - la))
     return r
 
 
@@ -440,7 +573,12 @@ def seq_slice1(s, lo, hi):
         def psum(k):
             return s.psum(lo + k) - s.psum(lo)
 
-    return SSeq(n, lambda i: s.get(lo + i), s.shape, psum, "slice")
+    r = SSeq(n, lambda i: s.get(lo + i), s.shape, psum, "slice")
+    for c, f in s.cpsum.items():
+        r.cpsum[c] = lambda k, f=f: f(lo + k) - f(lo)
+    if s.expand is not None and 1 in s.cpsum:
+        r.expand = lambda p: s.expand(s.cpsum[1](lo) + p)
+    return r
 
 
 def seq_update(s, k, v):
@@ -470,7 +608,18 @@ def seq_update(s, k, v):
             ov = ov if V.is_num(ov) else mk_int(_num0(ov))
             return ite(j <= k, old.psum(j), old.psum(j) + nv - ov)
 
-    return SSeq(s.length, getter, s.shape, psum, "upd")
+    r = SSeq(s.length, getter, s.shape, psum, "upd")
+    if isinstance(v, tuple):
+        for c, f in old.cpsum.items():
+            if c < len(v) and V.is_num(v[c]):
+                r.cpsum[c] = lambda j, f=f, c=c: ite(j <= k, f(j), f(j) + v[c] - old.get(k)[c])
+        if old.expand is not None and 1 in r.cpsum and len(v) == 2:
+            def ex(p):
+                lo = old.cpsum[1](k)
+                return ite(p < lo, old.expand(p), ite(p < lo + v[1], v[0], old.expand(p - v[1] + old.get(k)[1])))
+
+            r.expand = ex
+    return r
 
 
 def seq_append(s, v):
